@@ -687,6 +687,7 @@ func (s *Store) rollback(ns walletdb.ReadWriteBucket, height int32) error {
 				// may have already been removed from a
 				// previously removed transaction record in
 				// this rollback.
+				credExists := existsRawCredit(ns, credKey) != nil
 				var amt btcutil.Amount
 				amt, err = unspendRawCredit(ns, credKey)
 				if err != nil {
@@ -697,11 +698,11 @@ func (s *Store) rollback(ns walletdb.ReadWriteBucket, height int32) error {
 					return err
 				}
 
-				// If the credit was previously removed in the
-				// rollback, the credit amount is zero.  Only
-				// mark the previously spent credit as unspent
-				// if it still exists.
-				if amt == 0 {
+				// Only mark the previously spent credit as
+				// unspent if it still exists, it may have been
+				// removed earlier in the rollback.  The amount
+				// does not tell, a credit can be worth zero.
+				if !credExists {
 					continue
 				}
 				unspentVal, err := fetchRawCreditUnspentValue(credKey)
